@@ -194,6 +194,41 @@ def copyBuf (n : Nat) : Nat := if n < 1 then 1 else if n < 32768 then n else 327
 
 def copyN (src : List Bytes) (n : Nat) : List Bytes × List Bytes := copyLoop (copyBuf n) src n
 
+/-- repeated `CopyN(…, fs)` until one call copies nothing (what the successive `Read`s of a filter do
+    to the source): returns everything copied and what is left of the source -/
+def drain (fs : Nat) : Nat → List Bytes → Bytes × List Bytes
+  | 0, src => ([], src)
+  | k + 1, src =>
+    let r := copyN src fs
+    if r.1.flatten.length = 0 then ([], r.2)
+    else
+      let q := drain fs k r.2
+      (r.1.flatten ++ q.1, q.2)
+
+/-! ### rule files: `ActionFileCheck` (action.go) as reached from ProductRuleConfLoad -/
+
+inductive Load where
+  | ok | err | panic
+deriving DecidableEq, Repr
+
+/-- `cmd = none`: no Cmd in the file; `q`/`fs = none`: field missing (the code dereferences the nil
+    pointer: `*conf.Quality`, `*conf.FlushSize`).  Order of the checks as in the code. -/
+def actionFileCheck (cmd : Option Cmd) (q fs : Option Int) : Load :=
+  match cmd with
+  | none => .err
+  | some .other => .err
+  | some c =>
+    match q with
+    | none => .panic
+    | some qv =>
+      let lo : Int := if c = .gzip then -2 else 0      -- gzip.HuffmanOnly / brotli.BestSpeed
+      let hi : Int := if c = .gzip then 9 else 11      -- gzip.BestCompression / brotli.BestCompression
+      if qv < lo || qv > hi then .err
+      else
+        match fs with
+        | none => .panic
+        | some f => if f < 64 || f > 4096 then .err else .ok
+
 /-! ### the filter -/
 
 structure FSt where
